@@ -35,7 +35,7 @@ RULE = ("each run generates a redirect graph over 2-8 URLs on up to three hosts 
         "issues 1-3 fetches; results are compared with a walk of the graph. distinct = distinct "
         "(graph shape, max_redirects, result class) signatures; non-trivial = the walk contained "
         "at least one redirect")
-PROBES = ["overlapping_fetches_with_certificate_rotation", "hop_closed_without_header", "redirect_target_host_in_upper_case", "chain_exactly_max", "chain_longer_than_max", "cycle", "self_loop", "cross_host_hop",
+PROBES = ["hop_stalls_or_resets_after_its_3x_header", "overlapping_fetches_with_certificate_rotation", "hop_closed_without_header", "redirect_target_host_in_upper_case", "chain_exactly_max", "chain_longer_than_max", "cycle", "self_loop", "cross_host_hop",
           "grey_target", "non_gemini_target", "cert_changed_on_hop", "cert_swapped_on_later_hop", "overlapping_fetches", "sql_fault_during_fetch", "follow_disabled",
           "max_redirects_zero", "final_after_redirects"]
 COMPONENTS = {
@@ -84,6 +84,9 @@ def run_one(ch):
                 tu = tu.replace("gemini://" + nodes[t]["host"], "gemini://" + nodes[t]["host"].upper())
                 nd["spelled"] = True
             nd.update(kind="redirect", target=t, meta=tu, status=ch.pick("rstatus", [30, 31]))
+            # what the hop does after its (complete) redirect header: a 3x is complete at the
+            # CRLF, whatever the server does with the connection afterwards
+            nd["after"] = ch.pick("rafter", ["close", "stall", "rst"], [8, 1, 1])
         else:
             grey = {
                 2: "/relative/path", 3: "n1", 4: "http://h0.sim/x", 5: "",
@@ -136,9 +139,25 @@ def run_one(ch):
                     peer.send_app(f"20 text/plain\r\nnode {nd['path']} on {host}\n".encode())
                 else:
                     peer.send_app(f"{nd['status']} {nd['meta']}\r\n".encode())
+                    peer.c16_after = nd.get("after")
+
+            def after(peer):
+                how = getattr(peer, "c16_after", None)
+                if how == "stall":
+                    peer.stalled = True
+                    peer.waiting = "sleep"          # never woken: header sent, then silence
+                elif how == "rst":
+                    peer.waiting = "sleep"
+
+                    def do_rst():
+                        peer.outq.clear()
+                        peer.closed = True
+                        peer.ep.rst()
+                    net.after(0.005, do_rst)
             if concurrent:
-                return {"script": [("wait_line",), ("sleep", 0.02), ("call", respond), ("close",)]}
-            return {"script": [("wait_line",), ("call", respond), ("close",)]}
+                return {"script": [("wait_line",), ("sleep", 0.02), ("call", respond), ("call", after),
+                                   ("close",)]}
+            return {"script": [("wait_line",), ("call", respond), ("call", after), ("close",)]}
         return beh
     servers = {h: ScriptedServer(sim, h, 1965, certs[h], behaviour(h)) for h in HOSTS}
     for h, n_ in swap_after.items():
@@ -270,6 +289,8 @@ def run_one(ch):
                 break
             if nodes[nxt]["host"] != nd["host"]:
                 st["cross_host_hop"] = 1
+            if nd.get("after") in ("stall", "rst"):
+                st["hop_stalls_or_resets_after_its_3x_header"] = 1
             if nd.get("spelled"):
                 st["redirect_target_host_in_upper_case"] = 1
             k += 1
